@@ -24,6 +24,9 @@ LEB_SIZES = [6, 14, 26, 38, 50, 74, 86, 110, 146, 170, 194, 230, 266, 302, 350, 
 ASSUME = ["pyscf.dft.gen_grid.Grids (PySCF 2.14) with the same attribute settings is the reference grid",
           "PySCF's Lebedev tables are exact to 1e-15 for their stated algebraic order"]
 YTOL = 1e-12
+# first signature element of the two defects of the pinned tree that every sub-check runs into: one bucket per
+# defect whatever sub-check met it (a known_findings entry ["lmax_ne_10"] / ["atom_grid_default_key"] matches)
+DEFECT = "cider_grids"
 DTOL = 1e-14
 
 
@@ -456,7 +459,7 @@ def run_grid_case(case, ctx, sub, kw_fallback=True):
             if not deferred or deferred[0][0][0] != "lmax_ne_10":
                 deferred.insert(0, (("lmax_ne_10", "build_raises_ValueError"), {"lmax": lmax, "message": str(e)[:200]}))
             if lmax == 0 or not kw_fallback:
-                raise Violation((sub, "lmax_ne_10", "build_raises_ValueError"), {"lmax": lmax, "message": str(e)[:200]})
+                raise Violation((DEFECT, "lmax_ne_10", "build_raises_ValueError"), {"lmax": lmax, "message": str(e)[:200]})
             # keep searching behind it: same settings with the table width passed explicitly (lmax >= 1 only:
             # the C recursion writes the l = 1 entries unconditionally)
             g = configure(CiderGrids(mol, lmax=lmax), case, level, prune, True)
@@ -553,7 +556,7 @@ def run_grid_case(case, ctx, sub, kw_fallback=True):
         ctx.nontrivial(key)
     if deferred:
         sig, detail = deferred[0]
-        raise Violation((sub,) + tuple(sig), detail)
+        raise Violation((DEFECT,) + tuple(sig), detail)
 
 
 # ------------------------------------------------------------------------------------------------
